@@ -555,6 +555,11 @@ def _worker(engine_mod, config, exe, prop, seed, tier, wid, nworkers, nruns, dea
             out = Outcome()
             todo = plan
             status = 'ok'
+            if getattr(eng, 'FRESH_EVERY', 0) and (i // nworkers) % eng.FRESH_EVERY == 0 and agg['runs'] > 0:
+                # a brand-new executor process for this plan: whatever the library initialises lazily, once per
+                # process, is initialised again - under this plan's schedule
+                ex.close()
+                ex = Executor(exe, '%s.%s.%d' % (eng.NAME, config, wid))
             while todo is not None:
                 t0 = time.time()
                 status, tr, diag = ex.run(todo, timeout=eng.TIMEOUT if hasattr(eng, 'TIMEOUT') else 60.0)
